@@ -128,8 +128,10 @@ def r1_prediagnosis(report, repo):
     marg = _assign_nodes(p, 'self.phase_record.marginal') + _assign_nodes(
         p, 'self.marginal')
     if want == 'PASS':
-      ok = len(marg) == 1 and lib.is_any_over_values(
-          marg[0].ast.value, 'marginal', 'measurements')
+      ok = len(marg) == 1 and (lib.is_any_over_values(
+          marg[0].ast.value, 'marginal', 'measurements') or (
+              repo.has_func(TS, 'PhaseState._measurements_marginal') and
+              call_name(marg[0].ast.value) == 'self._measurements_marginal'))
       if not ok:
         return ('marginal: PASS must set marginal to any(meas.marginal) over '
                 'all measurements of the phase')
@@ -809,3 +811,6 @@ def run(report, repo):
   report.guard(c06.r7_measurements_pass, report, repo, rule='C05-R9')
   from sa.rules import extra4  # pylint: disable=g-import-not-at-top
   report.guard(extra4.snapshot_per_invocation, report, repo, 'C05-R10')
+  from sa.rules import extra5  # pylint: disable=g-import-not-at-top
+  report.guard(extra5.unset_options_do_not_override, report, repo, 'C05-R10')
+  report.guard(extra5.thread_run_catches_exception_only, report, repo, 'C05-R11')
